@@ -468,9 +468,9 @@ class VP:
         # payload of a success variant: `(x as Some).0`, `(branch(x) as Continue).0`  ==  some(x)
         if base[0] == "downcast" and e["i"] == 0:
             if base[2] in ("Some", "Ok"):
-                return ("some", base[1])
+                return mk_some(base[1])
             if base[2] == "Continue" and base[1][0] == "call" and base[1][1] == "std::ops::Try::branch" and base[1][2]:
-                return ("some", base[1][2][0])
+                return mk_some(base[1][2][0])
         # closure environment -> upvar
         if fn.is_closure:
             b = base
@@ -587,7 +587,7 @@ class VP:
                 return ("closure", rv["def"], ops)
             return ("agg", a, ops)
         if k == "discriminant":
-            return ("discr", self.place(fn, rv["place"], stack))
+            return ("discr", self.place(fn, rv["place"], stack), tuple((v, n) for v, n in rv.get("variants", [])))
         if k == "repeat":
             return ("repeat", self.operand(fn, rv["op"], stack))
         return ("other", k)
@@ -603,7 +603,7 @@ class VP:
         callee = t["func"]["key"] if "func" in t else "<indirect>"
         if callee in OPTION_PAYLOAD_COMBINATORS and argpos >= 1:
             recv = self.operand(pf, t["args"][0], stack)
-            payload = ("some", recv)
+            payload = mk_some(recv)
             nargs = cl.arg_count - 1
             if nargs == 1:
                 return payload
@@ -779,3 +779,96 @@ def term_str(t, depth=0):
     if k == "cast":
         return "cast(%s)" % r(t[2])
     return "%s(%s)" % (k, ", ".join(r(x) if isinstance(x, tuple) else str(x) for x in t[1:]))
+
+
+PRESENT_VARIANTS = {"Some", "Ok", "Continue", "Occupied"}
+ABSENT_VARIANTS = {"None", "Err", "Break", "Vacant"}
+
+
+def edge_variants(d, t, target):
+    """names of the enum variants for which the switch `t` (on discriminant term `d`) goes to `target`"""
+    if d[0] != "discr" or len(d) < 3 or not d[2]:
+        return None
+    names = dict(d[2])
+    listed = [v for v, _ in t["targets"]]
+    out = set()
+    for v, tb in t["targets"]:
+        if tb == target and v in names:
+            out.add(names[v])
+    if t["otherwise"] == target:
+        out |= {n for v, n in names.items() if v not in listed}
+    return out
+
+
+def edge_presence(d, t, target):
+    """'present' / 'absent' / None for an edge of a switch on an Option / Result / ControlFlow / Entry discriminant"""
+    vs = edge_variants(d, t, target)
+    if not vs:
+        return None
+    if vs <= PRESENT_VARIANTS:
+        return "present"
+    if vs <= ABSENT_VARIANTS:
+        return "absent"
+    return None
+
+
+def mk_some(x):
+    """payload of a success value: when the Option is a literal `Some(v)` (or a join of such literals and `None`)
+    the payload is v itself"""
+    y = x
+    while y[0] == "defat":
+        y = y[2]
+    if y[0] == "adt" and y[1] in ("std::option::Option", "std::result::Result") and y[2] in ("Some", "Ok") and len(y[3]) == 1:
+        return y[3][0]
+    if y[0] in ("phi", "mu"):
+        alts = y[4] if y[0] == "phi" else y[1]
+        pay = []
+        for a in alts:
+            while a[0] == "defat":
+                a = a[2]
+            if a[0] == "adt" and a[1] == "std::option::Option":
+                if a[2] == "Some" and len(a[3]) == 1:
+                    pay.append(a[3][0])
+                continue
+            return ("some", x)
+        if len(pay) == 1:
+            return pay[0]
+    return ("some", x)
+
+
+def subst_params(t, callee_key, args):
+    """replace ("param", callee_key, i, _) by args[i-1] everywhere in term t"""
+    if not isinstance(t, tuple) or not t:
+        return t
+    if isinstance(t[0], str):
+        if t[0] == "param" and t[1] == callee_key and isinstance(t[2], int) and 1 <= t[2] <= len(args):
+            return args[t[2] - 1]
+        if t[0] == "deref":
+            inner = subst_params(t[1], callee_key, args)
+            if inner[0] in ("ref", "rawref"):
+                return inner[1]
+            return ("deref", inner)
+    return tuple(subst_params(x, callee_key, args) if isinstance(x, tuple) else x for x in t)
+
+
+def deep_ret(view, f, depth=4):
+    """return term of f with calls to crate functions replaced by THEIR return terms (parameters substituted):
+    interprocedural provenance for forwarding wrappers"""
+    return _deep(view, view.vp.local(f, 0), depth)
+
+
+def _deep(view, t, depth):
+    if not isinstance(t, tuple) or not t or depth < 0:
+        return t
+    if isinstance(t[0], str) and t[0] == "call" and len(t) > 3 and t[3]:
+        fnkey, bb = t[3]
+        g = view.prog.fn(fnkey)
+        if g is not None and g.term(bb)["k"] == "call":
+            ci = view.fx.call_info(g, bb)
+            if ci.local_callee:
+                callee = view.prog.fn(ci.local_callee)
+                if callee is not None and callee.body and not callee.cfg.loops and depth > 0:
+                    args = tuple(_deep(view, a, depth - 1) for a in t[2])
+                    r = view.vp.local(callee, 0)
+                    return _deep(view, subst_params(r, callee.key, args), depth - 1)
+    return tuple(_deep(view, x, depth) if isinstance(x, tuple) else x for x in t)
